@@ -129,15 +129,21 @@ def go_build(pkg, name=None, tags="verif", race=False, test=False, timeout=900):
     name = name or os.path.basename(pkg)
     out = os.path.join(build_dir("bin"), name + ("-race" if race else ""))
     mod = harness_modfile()
+    tmp = out + ".new.%d" % os.getpid()
     cmd = ["go", "test", "-c"] if test else ["go", "build"]
-    cmd += ["-modfile=" + mod, "-tags", tags, "-o", out]
+    cmd += ["-modfile=" + mod, "-tags", tags, "-o", tmp]
     if race:
         cmd.append("-race")
     cmd.append(pkg)
     with Lock("go-" + repo_key()):
         rc, log = run(cmd, cwd=os.path.join(VERIF, "go"), env=go_env(), timeout=timeout)
-    if rc != 0:
-        return None, log
+        if rc != 0 or not os.path.exists(tmp):
+            if os.path.exists(tmp):
+                os.remove(tmp)
+            return None, log
+        # atomic replacement: a check that is executing the previous binary
+        # keeps it (no "text file busy" / half-written file for concurrent checks)
+        os.replace(tmp, out)
     return out, log
 
 
@@ -197,11 +203,16 @@ def coq_extract(vfile, outdir, timeout=900):
 
 def ocaml_build(srcs, out, cwd, timeout=900):
     """ocamlfind ocamlopt the given sources (order matters) into `out`."""
-    cmd = ["ocamlfind", "ocamlopt", "-O2", "-w", "-a", "-package", "str", "-linkpkg", "-o", out] + list(srcs)
+    tmp = out + ".tmp.%d" % os.getpid()
+    cmd = ["ocamlfind", "ocamlopt", "-O2", "-w", "-a", "-package", "str", "-linkpkg", "-o", tmp] + list(srcs)
     rc, log = run(cmd, cwd=cwd, timeout=timeout)
     if rc != 0:  # -O2 needs flambda; retry without
         cmd = [c for c in cmd if c != "-O2"]
         rc, log = run(cmd, cwd=cwd, timeout=timeout)
+    if rc == 0 and os.path.exists(tmp):
+        os.replace(tmp, out)   # atomic: concurrent checks executing the old binary keep it
+    elif os.path.exists(tmp):
+        os.remove(tmp)
     return rc == 0, log
 
 
